@@ -235,7 +235,22 @@ fn ref_word(t: &[u8]) -> Option<RefTok> {
     }
     let w = &t[..e];
     if is_digit(c) {
-        // all digits?
+        // 0x<hex digits> / 0b<binary digits>: the literal is the longest such prefix (what
+        // follows it is judged by the caller: a token must be followed by a separator)
+        if e >= 3 && w[0] == b'0' && w[1] == b'x' && w[2].is_ascii_hexdigit() {
+            let mut i = 2;
+            while i < e && w[i].is_ascii_hexdigit() {
+                i += 1;
+            }
+            return Some(RefTok { kind: K::IntVal, end: i, region: Region::Plain });
+        }
+        if e >= 3 && w[0] == b'0' && w[1] == b'b' && (w[2] == b'0' || w[2] == b'1') {
+            let mut i = 2;
+            while i < e && (w[i] == b'0' || w[i] == b'1') {
+                i += 1;
+            }
+            return Some(RefTok { kind: K::BinaryIntVal, end: i, region: Region::Plain });
+        }
         let mut all_digits = true;
         let mut i = 0;
         while i < e {
@@ -247,34 +262,16 @@ fn ref_word(t: &[u8]) -> Option<RefTok> {
         if all_digits {
             return Some(RefTok { kind: K::IntVal, end: e, region: Region::Plain });
         }
-        if e >= 3 && w[0] == b'0' && w[1] == b'x' {
-            let mut ok = true;
-            let mut i = 2;
-            while i < e {
-                if !w[i].is_ascii_hexdigit() {
-                    ok = false;
-                }
-                i += 1;
-            }
-            if ok {
-                return Some(RefTok { kind: K::IntVal, end: e, region: Region::Plain });
-            }
+        // TokIdentifier ::= ("0"..."9")* ualpha (ualpha | "0"..."9")*  -- provided the digits are
+        // directly followed by a letter or `_`
+        let mut d = 0;
+        while d < e && is_digit(w[d]) {
+            d += 1;
         }
-        if e >= 3 && w[0] == b'0' && w[1] == b'b' {
-            let mut ok = true;
-            let mut i = 2;
-            while i < e {
-                if !(w[i] == b'0' || w[i] == b'1') {
-                    ok = false;
-                }
-                i += 1;
-            }
-            if ok {
-                return Some(RefTok { kind: K::BinaryIntVal, end: e, region: Region::Plain });
-            }
+        if d < e && is_ualpha(w[d]) {
+            return Some(RefTok { kind: K::Id, end: e, region: Region::DigitLeadingIdent });
         }
-        // TokIdentifier ::= ("0"..."9")* ualpha (ualpha | "0"..."9")*
-        return Some(RefTok { kind: K::Id, end: e, region: Region::DigitLeadingIdent });
+        return None;
     }
     Some(RefTok { kind: ref_keyword(w), end: e, region: Region::Plain })
 }
@@ -528,7 +525,16 @@ fn expected_dispatch(t: &[u8]) -> (R, usize, char) {
     if c == b'/' && c1 == Some(b'*') {
         return (R::BlockComment, 2, '\0');
     }
-    if is_digit(c) || c == b'+' || c == b'-' {
+    if is_digit(c) {
+        // a digit-leading identifier goes to identifier(), every other digit start to number()
+        if let Some(r) = ref_word(t) {
+            if r.kind == K::Id {
+                return (R::Identifier, 1, '\0');
+            }
+        }
+        return (R::Number, 1, c as char);
+    }
+    if c == b'+' || c == b'-' {
         return (R::Number, 1, c as char);
     }
     if is_ualpha(c) {
@@ -632,11 +638,14 @@ fn routine_step<const N: usize>(class: Class) {
         }
         Class::Number => {
             kani::assume(is_digit(t[0]) || t[0] == b'+' || t[0] == b'-');
+            // as dispatched: not a digit-leading identifier
+            kani::assume(expected_dispatch(t).0 == R::Number);
             l.s.jump(1);
             l.number(0, t[0] as char)
         }
         Class::Ident => {
-            kani::assume(is_ualpha(t[0]));
+            kani::assume(is_ualpha(t[0]) || is_digit(t[0]));
+            kani::assume(expected_dispatch(t).0 == R::Identifier);
             l.s.jump(1);
             l.identifier(0)
         }
